@@ -37,7 +37,15 @@ def drive(F3, alg, N, order=0):
             calls = calls[::-1]
         if order % 3 == 0:
             # history: the approximate (hull-based) areas are requested first; the exact areas asked for afterwards must still be exact
-            calls.insert(order % 4, lambda: sv.get_voronoi_volumes(approx=True))
+            def approx_first():
+                # only a history element: the hull-based estimate is not part of C03's statement (it fails with QhullError for cells
+                # with three vertices and no helper point, N >~ 380); its own outcome is not judged
+                try:
+                    return sv.get_voronoi_volumes(approx=True)
+                except Exception as e:
+                    REC.notes[f"approximate areas raised {type(e).__name__} (not judged)"] += 1
+                    return None
+            calls.insert(order % 4, approx_first)
         from vlib.rec import call_and_hold
         before = sum(REC.monitors[m]["calls"] + REC.monitors[m]["skipped"] for m in DECIDING)
         approx_first = len(calls) == 7
